@@ -12,6 +12,31 @@ static const int ALLTYPES[] = {T_I32, T_I64, T_F64, T_BA, T_BOOL, T_F32, T_FLBA,
 
 struct SchemaOpts { int max_depth = 5; int max_nodes = 40; bool nested = true; bool repeated = true; };
 
+// a spec-conforming logical-type annotation for a leaf (the annotation never changes the stored values)
+static inline void gen_logical(Node& n) {
+    uint32_t k = draw(6);
+    auto decimal = [&](int maxp) { n.logical = 5; n.lp2 = 1 + (int)draw((uint32_t)maxp); n.lp1 = (int)draw((uint32_t)n.lp2 + 1); };
+    switch (n.type) {
+        case T_BA: { static const int L[] = {1, 4, 12, 13, 1}; if (k == 5) decimal(30); else n.logical = L[k]; break; }
+        case T_I32:
+            if (k == 0) n.logical = 6;
+            else if (k <= 2) { n.logical = 10; static const int BW[] = {8, 16, 32}; n.lp1 = BW[draw(3)]; n.lp2 = (int)draw(2); }
+            else if (k == 3) { n.logical = 7; n.lp1 = (int)draw(2); n.lp2 = 1; }
+            else if (k == 4) decimal(9);
+            break;
+        case T_I64:
+            if (k <= 1) { n.logical = 8; n.lp1 = (int)draw(2); n.lp2 = 1 + (int)draw(3); }
+            else if (k == 2) { n.logical = 7; n.lp1 = (int)draw(2); n.lp2 = 2 + (int)draw(2); }
+            else if (k == 3) { n.logical = 10; n.lp1 = 64; n.lp2 = (int)draw(2); }
+            else if (k == 4) decimal(18);
+            break;
+        case T_FLBA:
+            if (k <= 1) { n.logical = 14; n.tlen = 16; } else if (k == 2) { n.logical = 15; n.tlen = 2; } else if (k <= 4) decimal(2 * n.tlen);
+            break;
+        default: break;      // UNKNOWN (always-null column) is not generated: the annotated columns here hold values
+    }
+}
+
 static inline void gen_node(Node& n, int depth, int& budget, const SchemaOpts& o, int& counter, bool force_leaf) {
     n.name = (draw(8) == 7 ? std::string("n.") : std::string("n")) + std::to_string(counter++);
     uint32_t rk = draw(o.repeated ? 4 : 3);
@@ -19,7 +44,7 @@ static inline void gen_node(Node& n, int depth, int& budget, const SchemaOpts& o
     bool group = o.nested && !force_leaf && depth < o.max_depth && budget > 2 && draw(3) == 2;
     if (!group) {
         n.leaf = true; n.type = ALLTYPES[draw(8)]; n.tlen = n.type == T_FLBA ? range(1, 16) : 0;
-        n.logical = n.type == T_BA && draw(3) == 0 ? 1 : 0;
+        if (draw(3) == 0) gen_logical(n);
         return;
     }
     n.leaf = false;
